@@ -303,6 +303,21 @@ func Drive(cfg *Config, fn RunFn) int {
 		if out.V == nil {
 			continue
 		}
+		if cfg.Opts["survey"] == "1" {
+			// survey mode (development aid): count violation classes instead of stopping
+			key := out.V.Class
+			for _, tk := range []string{"pacer", "fmt", "explain"} {
+				if tv, ok := out.V.Tags[tk]; ok {
+					key += " " + tk + "=" + tv
+				}
+			}
+			res.Others["SURVEY "+key]++
+			if res.Others["SURVEY "+key] <= 2 || cfg.Opts["survey_all"] == "1" {
+				pj, _ := json.Marshal(out.V.Params)
+				fmt.Printf("SURVEY run %d: %s %s\n", run, out.V.Error(), pj)
+			}
+			continue
+		}
 		if k := known.Match(out.V); k != nil {
 			h := knownHits[k.ID]
 			if h == nil {
